@@ -18,6 +18,13 @@ TLC (GVDegeneracy / Gruneisen Impl.. invariants).
 """
 from __future__ import annotations
 
+import os
+
+# every call here hands one (or a handful of) q-points to the compiled kernels: OpenMP teams only add
+# barrier spinning on a shared machine.  Must be set before the extension (libgomp) is loaded.
+os.environ["OMP_NUM_THREADS"] = "1"
+os.environ.setdefault("OMP_WAIT_POLICY", "passive")
+
 import numpy as np
 
 from harness import bootstrap  # noqa: F401
@@ -59,16 +66,16 @@ def geoms(ctx):
     ]
     if not ctx.quick:
         g += [
-            dict(entry="cscl", mats=[diag(3, 1, 1)], S=diag(3, 1, 1), Z=[zdiag(2, 2), neg(zdiag(2, 2))], zden=1,
+            dict(entry="cscl", mats=[diag(2, 2, 2)], S=diag(2, 2, 2), Z=[zdiag(2, 2), neg(zdiag(2, 2))], zden=1,
                  C=zdiag(3, 3), cden=1),
-            dict(entry="wz", mats=[diag(2, 2, 1), [[1, -1, 0], [1, 2, 0], [0, 0, 1]]],
-                 S=[[1, -1, 0], [1, 2, 0], [0, 0, 1]],
+            dict(entry="wz", mats=[[[1, 1, 0], [-1, 2, 0], [0, 0, 1]]],
+                 S=[[1, 1, 0], [-1, 2, 0], [0, 0, 1]],             # sqrt3 x sqrt3: keeps the hexagonal point group
                  Z=[zdiag(3, 2), zdiag(3, 2), neg(zdiag(3, 2)), neg(zdiag(3, 2))], zden=2,
                  C=[[4, 2, 0], [2, 4, 0], [0, 0, 5]], cden=1),
             dict(entry="tetab", mats=[diag(2, 2, 2), [[1, -1, 0], [1, 1, 0], [0, 0, 2]]],
                  S=[[1, -1, 0], [1, 1, 0], [0, 0, 2]], Z=[zdiag(1, 2), neg(zdiag(1, 2))], zden=1, C=zdiag(3, 7), cden=2),
             dict(entry="bcc", mats=[diag(2, 2, 2)], S=diag(2, 2, 2), Z=None),
-            dict(entry="nacl", mats=[diag(2, 1, 1), [[1, 1, 0], [-1, 1, 0], [0, 0, 1]]], S=diag(2, 1, 1),
+            dict(entry="nacl", mats=[I3], S=I3,
                  Z=[zdiag(1, 1), neg(zdiag(1, 1))] * 4, zden=1, C=zdiag(2, 2), cden=1),
         ]
     return g
@@ -83,7 +90,7 @@ def make_cfgs(ctx):
     cfgs = []
     for k, g in enumerate(geoms(ctx)):
         pts = set()
-        npts = 3 if ctx.quick else 6
+        npts = 3 if ctx.quick else 10
         while len(pts) < npts:
             x = tuple(rng.randint(-6, 6) for _ in range(3))
             if sum(1 for v in x if v % 7 != 0) >= 2:
@@ -109,11 +116,11 @@ def cfg_tla(c):
 
 
 GV_REQ = ["TypeOK", "ReqShortestIsImage", "ReqShortestReversal", "ReqQuotientRule", "ReqEuler", "ReqDKSymmetric"]
-GV_PRE = ["PreSupercellComplete", "PreShortestStable", "PreTensorsSymmetric", "PreDenominator"]
+GV_PRE = ["PreSupercellComplete", "PreShortestStable", "PreTensorsSymmetric", "PreDenominator", "PreSupercellKeepsPointGroup"]
 CFG_GV = "SPECIFICATION Spec\nCONSTANTS\n Cfgs <- MCCfgs\nCHECK_DEADLOCK FALSE\n" + \
     "".join("INVARIANT %s\n" % i for i in GV_REQ + GV_PRE)
 
-TOL = dict(dm=1e-11, ddm=1e-10, gv_analytic=1e-8, gv_vs_freq_gradient=1e-5, gv_fd_mode=1e-5, gv_gl=3e-4,
+TOL = dict(dm=1e-11, ddm=1e-10, gv_analytic=1e-8, gv_vs_freq_gradient=2e-3, gv_fd_mode=1e-5, gv_gl=1e-4,
            gruneisen=1e-8, gruneisen_formula=1e-9, gruneisen_mesh_symmetry=1e-8)
 
 
@@ -387,6 +394,8 @@ def group_velocity_part(ctx, margins):
                 # the statement itself: gradient of the frequencies phonopy reports
                 if name.endswith("full"):
                     g2 = freq_gradient(ph, q, case.L)
+                    _, _, okfd = gv_from(Dm, dDc, fac, gap_rel=2e-2)      # finite differences need a wider gap
+                    ok = okfd
                     if ok.any():
                         e3 = np.abs(gvr[ok] - g2[ok]).max() / sg
                         upd(margins, "gv_vs_freq_gradient", e3)
@@ -402,7 +411,7 @@ def group_velocity_part(ctx, margins):
         oth = [s for s in gen if tuple(s["x"]) != OUTSIDE_ON_MIRROR.get(c["entry"])]
         modes = [("fd", "wang" if c["nac"] else None, s) for s in oth[:1] + spc]
         if c["nac"]:
-            modes.append(("gl", "gonze", oth[0]))
+            modes += [("gl", "gonze", s) for s in oth[:1] + spc]
         for mode, method, st in modes:
             q = np.array(st["x"], float) / c["pden"]
             with quiet():
@@ -418,7 +427,7 @@ def group_velocity_part(ctx, margins):
             frr = np.array(d["frequencies"][0])
             g2 = freq_gradient(ph, q, case.L)
             bw = frr.max() - frr.min()
-            ok = np.array([frr[i] > 5e-3 * bw and min(abs(frr[i] - frr[j]) for j in range(len(frr)) if j != i) > 5e-3 * bw
+            ok = np.array([frr[i] > 2e-2 * bw and min(abs(frr[i] - frr[j]) for j in range(len(frr)) if j != i) > 2e-2 * bw
                            for i in range(len(frr))])
             if ok.any():
                 sg = max(np.abs(g2[ok]).max(), 1e-6)
@@ -499,9 +508,10 @@ def degeneracy_part(ctx):
             except Exception as e:
                 ctx.violation("gvdeg:raises", "degenerate_sets raised %r" % e, dict(freqs=f, tol=tol))
                 continue
-            obs.append(dict(freqs=list(f), tol=tol, sets=[[int(v) + 1 for v in s] for s in sets]))
+            obs.append((to_tla([list(f), tol]), to_tla([[int(v) + 1 for v in s] for s in sets])))
             ctx.count(("degsets", f, tol))
-    mc = "---- MODULE MC_GVD ----\nEXTENDS GVDegeneracy\nMCObserved == {%s}\n====\n" % ",\n".join(to_tla(o) for o in obs)
+    mc = ("---- MODULE MC_GVD ----\nEXTENDS GVDegeneracy\nMCObserved == {%s}\n====\n"
+          % ",\n".join("<<%s, %s>>" % o for o in obs))
     res = ctx.tlc("MC_GVD", cfg_text=CFG_DEG % (5, 5), extra_files={"MC_GVD.tla": mc}, requirement=False,
                   extra_args=("-continue",), workers=4)
     for nm in sorted(set(n for n, _ in res.violations)):
@@ -576,6 +586,8 @@ def gruneisen_part(ctx, margins):
                   dict(id=7, k=3, d1=1, d2=1, dd=10, ds=[0, 1], entry="sc", S=diag(3, 3, 3), mats=[diag(3, 3, 3)]),
                   dict(id=8, k=2, d1=1, d2=1, dd=20, ds=[1, 8], entry="wz", S=diag(2, 2, 1),
                        mats=[diag(2, 2, 1), [[1, -1, 0], [1, 2, 0], [0, 0, 1]]])]
+    if os.environ.get("C12_GRU_ONLY"):                      # experiments only
+        cases = [c for c in cases if str(c["id"]) in os.environ["C12_GRU_ONLY"].split(",")]
     res = ctx.tlc("MC_Gru", cfg_text=CFG_GRU, extra_files={"MC_Gru.tla": gru_mc(cases, [])}, requirement=True,
                   dump=True, keep=True, workers=2, coverage=not ctx.quick)
     try:
@@ -680,6 +692,7 @@ def gruneisen_part(ctx, margins):
         strain = ds if ds is not None else (php2.primitive.volume - phm2.primitive.volume) / ph0.primitive.volume
         formula_ok = True
         worst = 0.0
+        ev_scale = float((np.abs(f_ir).max() / fac) ** 2)
         for q, fq, gq in zip(q_ir, f_ir, g_ir):
             with quiet():
                 for p in (ph0, php2, phm2):
@@ -688,7 +701,7 @@ def gruneisen_part(ctx, margins):
             Dp = php2.get_qpoints_dict()["dynamical_matrices"][0]
             Dmn = phm2.get_qpoints_dict()["dynamical_matrices"][0]
             ev, vec = np.linalg.eigh(D0)
-            bw = ev.max() - ev.min()
+            bw = ev_scale                  # scale of the whole spectrum (at the zone centre of a Bravais crystal all are 0)
             for b in range(len(ev)):
                 gaps = [abs(ev[b] - ev[c2]) for c2 in range(len(ev)) if c2 != b]
                 if min(gaps) < 1e-3 * bw or ev[b] < 1e-3 * bw:
@@ -716,7 +729,7 @@ def gruneisen_part(ctx, margins):
         e = np.abs(m_ir - m_fu).max() / max(np.abs(m_fu).max(), 1e-12)
         upd(margins, "gruneisen_mesh_symmetry", e)
         ctx.count(("gru-meshsym", cs["id"]))
-        if e > TOL["gruneisen_mesh_symmetry"] or len(q_ir) >= len(q_fu):
+        if not (e <= TOL["gruneisen_mesh_symmetry"]) or len(q_ir) > len(q_fu):
             sym_ok = False
             ctx.violation("gruneisen:mesh-symmetry", "symmetry-reduced and full mesh give different mode Grueneisen "
                           "distributions", dict(case=cs, moments_ir=m_ir, moments_full=m_fu, n_ir=len(q_ir),
